@@ -17,7 +17,7 @@ from vv.core import Result, exc_violation, innermost_is_harness, Violation
 from vv.util import deq
 
 ID = 'C13'
-CASES = {'quick': 60, 'thorough': 2500}
+CASES = {'quick': 100, 'thorough': 2500}
 SHARDS = {'quick': 8, 'thorough': 16}
 HANG_IS_VIOLATION = True
 CASE_TIMEOUT = 20
@@ -101,6 +101,11 @@ def strategy_(draw, tier):
             if op.get('resident') and draw(st.booleans()):
                 op['resident']['parallel'] = True
                 par.append('gen:' + (op.get('key') or op.get('mother')))
+                # a parallel process born mid-run, with a long timestep: its
+                # update is in flight when the next batches change structure
+                if draw(st.integers(0, 2)) > 0:
+                    op['resident']['ts'] = 2.0 if spec['op_is_step'] else \
+                        draw(st.sampled_from([1.5, 2.0]))
     if not par and spec['residents']:
         par.append(sorted(spec['residents'])[0])
     # a mother holding a ParallelProcess cannot be divided by copying
@@ -113,6 +118,9 @@ def strategy_(draw, tier):
             if op['op'] == 'divide' and not op['explicit'] and \
                     op['mother'] in holders:
                 op['explicit'] = True
+    if draw(st.booleans()):
+        # the whole history in one call: nothing is drained at call boundaries
+        spec['chunks'] = [sum(spec['chunks'])]
     spec.update(kind='struct', parallel=par, shutdown=shutdown)
     return spec
 
